@@ -4,10 +4,14 @@
   Property theorems only.  Model: Cog/Heap/Model.lean (address-labelled trees, copy specs);
   meta-theorems: Cog/Heap/Copy.lean (`copy_faithful_independent`, by structural induction over
   values of any shape and depth) and Cog/Heap/Typed.lean (from the finite table to all well-typed
-  values).  Facts regenerated from /repo on every run: Cog/Gen/CopyFacts.lean (how each DeepCopy
-  method copies each field), Cog/Gen/IRFields.lean (field lists and types of every IR struct).
+  values).  Facts regenerated from the checked cog tree on every run: Cog/Gen/CopyFacts.lean (how
+  each DeepCopy method copies each field, the cases of the dynamic-value helper `deepCopyValue`,
+  the shape of compiler.Passes.Process), Cog/Gen/IRFields.lean (field lists and types of every IR
+  struct).  Cog/Heap/PreFix.lean is pinned history: the same tables for the tree before the fix
+  commits b4532a0, ea8a40d, 1572d8b, 71b1811.
 -/
 import Cog.Heap.Typed
+import Cog.Heap.PreFix
 import Cog.Gen.CopyFacts
 import Cog.Gen.IRFields
 set_option linter.unusedVariables false
@@ -17,33 +21,45 @@ open Cog.Gen
 /-- depth bound for the "struct of scalars" test (more than the number of struct types) -/
 def irFuel : Nat := irFields.length + 1
 
+/-- **The dynamic types held by the IR's `any` fields** (defaults, constant values, constraint
+    arguments, reference values, hints).  This is an explicit assumption about what cog's
+    front-ends and passes store there: decoded JSON / YAML / CUE values are scalars, `[]any` and
+    `map[string]any`; hints hold strings, bools and a `DisjunctionType` (or `Type`).  The harness
+    generates exactly these.  A dynamic type outside this list that can hold mutable structure
+    (say `[]string`) would be handed over as-is by `deepCopyValue`: see `C18_universe_needed`. -/
+def irDynTypes : List Ty :=
+  [.imm, .slice .iface, .map .iface, .named "DisjunctionType", .named "Type"]
+
 /-! ### the full statement -/
 
 /-- **C18, full strength.**  For every DeepCopy method, every well-typed receiver value (any
-    shape, any nesting depth) and every fresh-address counter above the value's addresses:
-    the copy equals the original in every declared field (modulo nil/empty collections), shares
-    no backing store with it, and no write through an address of the copy changes the original
-    (nor the other way round). -/
-def C18_full (env : Env) (spec : Spec) (roots : Roots) : Prop :=
-  ∀ r ∈ roots, ∀ (n : GoNode) (k : Addr), hasTy env r.2.2 n = true → (∀ a ∈ addrs n, a < k) →
-    Correct spec r.2.1 n k
+    shape, any nesting depth) whose `any`s hold dynamic types of the universe `U`, and every
+    fresh-address counter above the value's addresses: the copy equals the original in every
+    declared field (modulo nil/empty collections), shares no backing store with it, and no write
+    through an address of the copy changes the original (nor the other way round). -/
+def C18_full (env : Env) (spec : Spec) (roots : Roots) (U : List Ty) : Prop :=
+  ∀ r ∈ roots, ∀ (n : GoNode) (k : Addr), hasTy env r.2.2 n = true → dynIn U n = true →
+    (∀ a ∈ addrs n, a < k) → Correct spec r.2.1 n k
 
 /-- The meta-theorem at the property's level (unbounded in the value): a consistent table
-    without `shared`/`omitted` entries gives the full statement. -/
-theorem C18_full_of_good_table (env : Env) (spec : Spec) (roots : Roots) (fuel : Nat)
+    without `shared`/`omitted` entries whose dynamic-value helper covers the universe gives the
+    full statement. -/
+theorem C18_full_of_good_table (env : Env) (spec : Spec) (roots : Roots) (U : List Ty) (fuel : Nat)
     (hok : tableOK env spec fuel = true) (hr : rootsOK env spec fuel roots = true)
-    (hgood : badEntries spec = []) (hroots : roots.all (fun r => !r.2.1.bad) = true) :
-    C18_full env spec roots := by
-  intro r hrm n k ht hb
+    (hgood : badEntries spec = []) (hroots : roots.all (fun r => !r.2.1.bad) = true)
+    (hcov : dynCovers env spec fuel U = true) :
+    C18_full env spec roots U := by
+  intro r hrm n k ht hd hb
   simp only [rootsOK, List.all_eq_true] at hr hroots
   have hf := hr r hrm
   have hnb : r.2.1.bad = false := by simpa using hroots r hrm
   exact correct_of_clean env spec fuel hok r.2.1 r.2.2 hf n k ht
-    (good_clean env spec fuel hok hgood n r.2.1 r.2.2 hnb hf ht) hb
+    (good_clean env spec fuel U hok hgood hcov n r.2.1 r.2.2 hnb hf ht hd) hb
 
-/-- **C18, proved part** (any consistent table): every well-typed value that holds no mutable
-    structure at the `shared` positions and nothing at the `omitted` positions (`clean`, a
-    decidable predicate of the value) is copied faithfully and independently. -/
+/-- **C18 on any consistent table** (also one with bad entries): every well-typed value that
+    holds no mutable structure at the `shared` positions, nothing at the `omitted` positions and
+    no unrebuilt dynamic type holding a store (`clean`, a decidable predicate of the value) is
+    copied faithfully and independently. -/
 theorem C18_partial (env : Env) (spec : Spec) (roots : Roots) (fuel : Nat)
     (hok : tableOK env spec fuel = true) (hr : rootsOK env spec fuel roots = true) :
     ∀ r ∈ roots, ∀ (n : GoNode) (k : Addr), hasTy env r.2.2 n = true → clean spec r.2.1 n = true →
@@ -55,133 +71,200 @@ theorem C18_partial (env : Env) (spec : Spec) (roots : Roots) (fuel : Nat)
 /-! ### the current tree -/
 
 /-- The explicit exception list: the only (struct, field, mode) entries of the regenerated copy
-    table that are allowed not to be good.  Named by struct and field.  Every other entry that
-    is not good breaks `C18_current_tree`. -/
-def exceptions : List (String × String × Mode) := [
-  ("Type", "Default", .shared),
-  ("Type", "Hints", .freshMap .shared),
-  ("TypeConstraint", "Args", .freshSlice .shared),
-  ("ScalarType", "Value", .shared),
-  ("EnumValue", "Value", .shared),
-  ("ConstantReferenceType", "ReferenceValue", .shared),
-  ("Schema", "EntryPointType", .shared),
-  ("Builder", "For", .shared),
-  ("Builder", "Factories", .omitted),
-  ("Option", "Default", .omitted),
-  ("PathIndex", "Constant", .shared),
-  ("AssignmentValue", "Constant", .shared),
-  ("AssignmentConstraint", "Parameter", .shared),
-  ("TypedConstant", "Value", .shared)]
+    table that are allowed not to be good.  **Empty since the fix commits**: every entry of the
+    current table must be good; a relapse of any former exception breaks `C18_current_tree`. -/
+def exceptions : List (String × String × Mode) := []
 
 /-- **Decision over the regenerated table**: the copy table agrees with the IR's field lists
     (same structs, same fields in the same order — a field added in Go and not known to the copy
     routine appears as `omitted`), every mode fits its field's Go type (`byValue` only on types
-    that cannot hold a slice, map, pointer or interface), every DeepCopy entry point fits its
-    receiver, and every entry that is not good is on the explicit exception list. -/
+    that cannot hold a slice, map, pointer or interface; `dyn` only on `any`), every case of
+    `deepCopyValue` fits its dynamic type, every DeepCopy entry point fits its receiver, every
+    entry that is not good is on the (empty) exception list, and `deepCopyValue` rebuilds every
+    dynamic type of the universe that can hold mutable structure. -/
 theorem C18_current_tree :
     tableOK irFields copyFacts irFuel = true ∧
     rootsOK irFields copyFacts irFuel copyRoots = true ∧
     copyRoots.all (fun r => !r.2.1.bad) = true ∧
-    (badEntries copyFacts).all (fun e => exceptions.contains e) = true := by
+    (badEntries copyFacts).all (fun e => exceptions.contains e) = true ∧
+    dynCovers irFields copyFacts irFuel irDynTypes = true := by
   decide
 
-/-- The proved part instantiated on the current tree: every value of every IR type that is
-    `clean` — by `C18_current_tree` that constrains only the listed exception fields — is copied
-    faithfully and independently by the real `DeepCopy` table. -/
+theorem C18_no_bad_entry : badEntries copyFacts = [] := by
+  have h := C18_current_tree.2.2.2.1
+  cases hb : badEntries copyFacts with
+  | nil => rfl
+  | cons e r => rw [hb] at h; simp [exceptions] at h
+
+/-- **C18 holds on the current tree, at full strength** (over the stated universe of dynamic
+    types): every DeepCopy method, every well-typed value of any shape and depth. -/
+theorem C18_full_current_tree : C18_full irFields copyFacts copyRoots irDynTypes :=
+  C18_full_of_good_table irFields copyFacts copyRoots irDynTypes irFuel C18_current_tree.1
+    C18_current_tree.2.1 C18_no_bad_entry C18_current_tree.2.2.1 C18_current_tree.2.2.2.2
+
+/-- The value-level form instantiated on the current tree (no universe assumption: `clean` says
+    what is needed of the value). -/
 theorem C18_partial_current_tree :
     ∀ r ∈ copyRoots, ∀ (n : GoNode) (k : Addr), hasTy irFields r.2.2 n = true →
       clean copyFacts r.2.1 n = true → (∀ a ∈ addrs n, a < k) → Correct copyFacts r.2.1 n k :=
   C18_partial irFields copyFacts copyRoots irFuel C18_current_tree.1 C18_current_tree.2.1
 
-/-- non-vacuity of the partial theorem: a well-typed, clean `Object` whose type holds a struct
-    with a field, comments and a scalar default — with 6 distinct addresses to separate -/
+/-- `[]any{"a"}` as held by an `any` -/
+def anyList (a : Addr) : GoNode := .iface (.slice .iface) (.slice a [.iface .imm (.imm "a")])
+
+/-- non-vacuity: a well-typed `Object` over the universe whose type holds a struct with a field,
+    comments, a *list default*, a *map default* one level down and a hint holding a
+    `DisjunctionType` with a branch slice and a mapping — 11 distinct addresses to separate -/
 def sampleObject : GoNode :=
   mkStruct irFields "Object" [
     ("Name", .imm "o"), ("Comments", .slice 1 [.imm "c"]),
     ("Type", mkStruct irFields "Type" [
-      ("Kind", .imm "struct"), ("Default", .iface (.imm "42")),
-      ("Hints", .gomap 2 [("h", .iface (.imm "x"))]),
+      ("Kind", .imm "struct"), ("Default", anyList 7),
+      ("Hints", .gomap 2 [("h", .iface (.named "DisjunctionType") (mkStruct irFields "DisjunctionType" [
+          ("Branches", .slice 8 [mkStruct irFields "Type" [("Kind", .imm "ref")]]),
+          ("DiscriminatorMapping", .gomap 9 [("k", .imm "v")])]))]),
       ("Struct", .ptr 3 (mkStruct irFields "StructType" [
         ("Fields", .slice 4 [mkStruct irFields "StructField" [
           ("Name", .imm "f"), ("Comments", .slice 5 [.imm "fc"]),
           ("Type", mkStruct irFields "Type" [("Kind", .imm "scalar"),
+            ("Default", .iface (.map .iface) (.gomap 10 [("k", anyList 11)])),
             ("Scalar", .ptr 6 (mkStruct irFields "ScalarType" [("ScalarKind", .imm "string")]))])]])]))])]
 
 example : ("Object", Mode.recur "Object", Ty.named "Object") ∈ copyRoots ∧
     hasTy irFields (.named "Object") sampleObject = true ∧
+    dynIn irDynTypes sampleObject = true ∧
     clean copyFacts (.recur "Object") sampleObject = true ∧
-    (addrs sampleObject).length = 6 ∧ (∀ a ∈ addrs sampleObject, a < 100) ∧
-    (addrs (copyNode copyFacts (.recur "Object") sampleObject 100).1).length = 6 := by decide
+    (addrs sampleObject).length = 11 ∧ (∀ a ∈ addrs sampleObject, a < 100) ∧
+    (addrs (copyNode copyFacts (.recur "Object") sampleObject 100).1).length = 11 := by decide
 
-/-! ### the exceptions are genuine: a witness for each, in the model -/
+/-! ### the universe assumption is needed -/
 
-/-- for each exception, a (type-correct) payload for the offending field -/
-def payload (T field : String) : GoNode :=
-  match T, field with
-  | "Type", "Hints" => .gomap 1 [("h", .iface (.slice 2 [.imm "a"]))]
-  | "TypeConstraint", "Args" => .slice 1 [.iface (.slice 2 [.imm "a"])]
-  | "Schema", "EntryPointType" => mkStruct irFields "Type" [("PassesTrail", .slice 1 [.imm "t"])]
-  | "Builder", "For" => mkStruct irFields "Object" [("Comments", .slice 1 [.imm "c"])]
-  | "Builder", "Factories" => .slice 1 [mkStruct irFields "BuilderFactory" [("Name", .imm "f")]]
-  | "Option", "Default" => .ptr 1 (mkStruct irFields "OptionDefault" [("ArgsValues", .slice 2 [.iface (.imm "1")])])
-  | _, _ => .iface (.slice 1 [.imm "a"])          -- an `any` holding a []any
+/-- the witness value of an entry: the struct with only that field populated -/
+def witnessOf (env : Env) (T field : String) (payload : GoNode) : GoNode :=
+  mkStruct env T [(field, payload)]
 
-/-- the witness value of an exception: the struct with only the offending field populated -/
-def witness (e : String × String × Mode) : GoNode :=
-  mkStruct irFields e.1 [(e.2.1, payload e.1 e.2.1)]
-
-/-- the witness is a well-typed receiver of a DeepCopy method, below the counter, and its copy
-    either differs from it or shares an address through which a write changes the original -/
-def witnessBreaks (env : Env) (spec : Spec) (roots : Roots) (e : String × String × Mode) (n : GoNode) : Bool :=
-  let c := (copyNode spec (.recur e.1) n 100).1
-  roots.contains (e.1, .recur e.1, .named e.1) && hasTy env (.named e.1) n && (addrs n).all (· < 100) &&
+/-- the witness is a well-typed receiver of a DeepCopy method over the universe `U`, below the
+    counter, and its copy either differs from it or shares an address through which a write
+    changes the original -/
+def witnessBreaks (env : Env) (spec : Spec) (roots : Roots) (U : List Ty) (T : String) (n : GoNode) : Bool :=
+  let c := (copyNode spec (.recur T) n 100).1
+  roots.contains (T, .recur T, .named T) && hasTy env (.named T) n && dynIn U n && (addrs n).all (· < 100) &&
   (!(GoNode.beq (erase c) (erase n)) ||
     (addrs c).any (fun a => (addrs n).contains a && !(GoNode.beq (write a (fun _ => .imm "mutated") n) n)))
 
-theorem not_full_of_witness (env : Env) (spec : Spec) (roots : Roots) (e : String × String × Mode) (n : GoNode)
-    (h : witnessBreaks env spec roots e n = true) : ¬ C18_full env spec roots := by
+theorem not_full_of_witness (env : Env) (spec : Spec) (roots : Roots) (U : List Ty) (T : String) (n : GoNode)
+    (h : witnessBreaks env spec roots U T n = true) : ¬ C18_full env spec roots U := by
   intro hfull
   simp only [witnessBreaks, Bool.and_eq_true, Bool.or_eq_true, List.all_eq_true, decide_eq_true_eq,
     List.any_eq_true, Bool.not_eq_true'] at h
-  obtain ⟨⟨⟨hroot, hty⟩, hbound⟩, hbreak⟩ := h
-  have hmem : (e.1, Mode.recur e.1, Ty.named e.1) ∈ roots := by simpa using hroot
-  obtain ⟨hfaith, hdis, _, _⟩ := hfull _ hmem n 100 hty hbound
+  obtain ⟨⟨⟨⟨hroot, hty⟩, hdyn⟩, hbound⟩, hbreak⟩ := h
+  have hmem : (T, Mode.recur T, Ty.named T) ∈ roots := by simpa using hroot
+  obtain ⟨hfaith, hdis, _, _⟩ := hfull _ hmem n 100 hty hdyn hbound
   rcases hbreak with hne | ⟨a, hac, han, _⟩
   · exact ne_of_beq_false hne hfaith
   · exact hdis a hac (by simpa using han)
 
-/-- **Every exception that is present in the regenerated table has a counterexample in the
-    model** (evaluated on the regenerated table): a well-typed value whose copy is unfaithful,
-    or shares an address with the original such that a write through it changes the original. -/
-theorem C18_exceptions_witnessed :
-    exceptions.all (fun e => !(badEntries copyFacts).contains e ||
-      witnessBreaks irFields copyFacts copyRoots e (witness e)) = true := by
+/-- **Caveat, proved.**  With a `[]string` admitted among the dynamic types (no case of
+    `deepCopyValue` rebuilds it) the full statement fails: `Type.Default = []string{"a"}` is
+    handed over as-is.  cog stores no such value (see `irDynTypes`); stated only while the helper
+    has no such case. -/
+theorem C18_universe_needed :
+    (lookupTy copyFacts.dyn (.slice .imm)).isSome = true ∨
+    ¬ C18_full irFields copyFacts copyRoots (irDynTypes ++ [.slice .imm]) := by
+  by_cases h : (lookupTy copyFacts.dyn (.slice .imm)).isSome = true
+  · exact Or.inl h
+  · refine Or.inr (not_full_of_witness _ _ _ _ "Type"
+      (witnessOf irFields "Type" "Default" (.iface (.slice .imm) (.slice 1 [.imm "a"]))) ?_)
+    have : (!(lookupTy copyFacts.dyn (.slice .imm)).isSome ==
+        witnessBreaks irFields copyFacts copyRoots (irDynTypes ++ [.slice .imm]) "Type"
+          (witnessOf irFields "Type" "Default" (.iface (.slice .imm) (.slice 1 [.imm "a"])))) = true := by decide
+    simp only [Bool.not_eq_true] at h
+    simpa [h] using this
+
+/-! ### history: the tree before the fix commits (pinned tables of Cog/Heap/PreFix.lean) -/
+
+open PreFix in
+/-- the entries of the pre-fix table that were not good — the former exception list of this
+    file; each was a known finding until the fix commits -/
+def preExceptions : List (String × String × Mode) := [
+  ("AssignmentConstraint", "Parameter", .shared),
+  ("AssignmentValue", "Constant", .shared),
+  ("Builder", "For", .shared),
+  ("Builder", "Factories", .omitted),
+  ("ConstantReferenceType", "ReferenceValue", .shared),
+  ("EnumValue", "Value", .shared),
+  ("Option", "Default", .omitted),
+  ("PathIndex", "Constant", .shared),
+  ("ScalarType", "Value", .shared),
+  ("Schema", "EntryPointType", .shared),
+  ("Type", "Default", .shared),
+  ("Type", "Hints", .freshMap .shared),
+  ("TypeConstraint", "Args", .freshSlice .shared),
+  ("TypedConstant", "Value", .shared)]
+
+open PreFix in
+/-- for each former exception, a (type-correct, in-universe) payload for the offending field:
+    the same values the harness replays on the real code as must-pass inputs -/
+def prePayload (T field : String) : GoNode :=
+  match T, field with
+  | "Type", "Hints" => .gomap 1 [("h", anyList 2)]
+  | "TypeConstraint", "Args" => .slice 1 [anyList 2]
+  | "Schema", "EntryPointType" => mkStruct preEnv "Type" [("PassesTrail", .slice 1 [.imm "t"])]
+  | "Builder", "For" => mkStruct preEnv "Object" [("Comments", .slice 1 [.imm "c"])]
+  | "Builder", "Factories" => .slice 1 [mkStruct preEnv "BuilderFactory" [("Name", .imm "f")]]
+  | "Option", "Default" => .ptr 1 (mkStruct preEnv "OptionDefault" [("ArgsValues", .slice 2 [.iface .imm (.imm "1")])])
+  | _, _ => anyList 1          -- an `any` holding a []any
+
+open PreFix in
+/-- **Before the fixes**: the pre-fix table is consistent, its bad entries are exactly the 14
+    former exceptions, and each of them has a well-typed in-universe witness whose copy is
+    unfaithful or shares an address through which a write changes the original. -/
+theorem C18_prefix_exceptions_witnessed :
+    tableOK preEnv preSpec (preEnv.length + 1) = true ∧
+    badEntries preSpec = preExceptions ∧
+    preExceptions.all (fun e => witnessBreaks preEnv preSpec preRoots irDynTypes e.1
+      (witnessOf preEnv e.1 e.2.1 (prePayload e.1 e.2.1))) = true := by
   decide
 
-/-- **The full statement is false on the current tree** as long as the regenerated table has
-    an entry that is not good (today: the 14 exceptions). -/
-theorem C18_counterexample (h : badEntries copyFacts ≠ []) : ¬ C18_full irFields copyFacts copyRoots := by
-  cases hb : badEntries copyFacts with
-  | nil => exact absurd hb h
-  | cons e rest =>
-      have hall := C18_current_tree.2.2.2
-      rw [hb] at hall
-      simp only [List.all_cons, Bool.and_eq_true] at hall
-      have hex : e ∈ exceptions := by simpa using hall.1
-      have hw := C18_exceptions_witnessed
-      simp only [List.all_eq_true] at hw
-      have := hw e hex
-      have hin : (badEntries copyFacts).contains e = true := by rw [hb]; simp
-      simp only [hin, Bool.not_true, Bool.false_or] at this
-      exact not_full_of_witness _ _ _ e _ this
+open PreFix in
+/-- **The full statement was false before the fixes.** -/
+theorem C18_prefix_counterexample : ¬ C18_full preEnv preSpec preRoots irDynTypes := by
+  have h := C18_prefix_exceptions_witnessed.2.2
+  simp only [preExceptions, List.all_cons, Bool.and_eq_true] at h
+  exact not_full_of_witness _ _ _ _ _ _ h.1
 
-/-- the status of the full statement on the current tree, whichever way the table turns out:
-    no bad entry ⇒ `C18_full` holds; some bad entry ⇒ it does not -/
-theorem C18_status :
-    (badEntries copyFacts = [] → C18_full irFields copyFacts copyRoots) ∧
-    (badEntries copyFacts ≠ [] → ¬ C18_full irFields copyFacts copyRoots) :=
-  ⟨fun h => C18_full_of_good_table irFields copyFacts copyRoots irFuel C18_current_tree.1
-      C18_current_tree.2.1 h C18_current_tree.2.2.1, C18_counterexample⟩
+/-- on the same witnesses the current table copies correctly (they are in the scope of
+    `C18_full_current_tree`; evaluated here as a cross-check of the model against the fixes) -/
+theorem C18_former_witnesses_pass :
+    preExceptions.all (fun e =>
+      let n := witnessOf irFields e.1 e.2.1 (prePayload e.1 e.2.1)
+      hasTy irFields (.named e.1) n && dynIn irDynTypes n &&
+      !(witnessBreaks irFields copyFacts copyRoots irDynTypes e.1 n)) = true := by
+  decide
+
+/-! ### the chain entry point duplicates its input first -/
+
+/-- **compiler.Passes.Process** (regenerated syntactic fact): its `schemas` parameter is used
+    exactly once, as the receiver of `schemas.DeepCopy()`, in a statement at the top level of the
+    body that no return precedes, and every return hands back the variable holding the copy (or
+    nil): the chain — empty or not — and its caller only ever see the duplicate. -/
+theorem C18_process_copies_first :
+    processInputUses = 1 ∧ processOnlyUseIsDeepCopy = true ∧ processCopyAtTopLevel = true ∧
+    processNoReturnBeforeCopy = true ∧ processReturnsCopyOrNil = true := by
+  decide
+
+/-- `Process` in the model: duplicate, then run the chain on the duplicate only.  Whatever the
+    chain (`run` is arbitrary, the empty chain is `fun c => c`), it is a function of the
+    duplicate, and the duplicate shares nothing with a well-typed input over the universe. -/
+theorem C18_process_frame (run : GoNode → GoNode) (S : GoNode) (k : Addr)
+    (hty : hasTy irFields (.slice (.ptr (.named "Schema"))) S = true) (hd : dynIn irDynTypes S = true)
+    (hb : ∀ a ∈ addrs S, a < k) (hroot : ("Schemas", Mode.freshSlice (.viaPtrRec "Schema"), Ty.slice (.ptr (.named "Schema"))) ∈ copyRoots) :
+    let c := (copyNode copyFacts (.freshSlice (.viaPtrRec "Schema")) S k).1
+    (∀ a ∈ addrs c, ∀ f, write a f S = S) ∧ erase c = erase S :=
+  let h := C18_full_current_tree _ hroot S k hty hd hb
+  ⟨h.2.2.1, h.1⟩
+
+example : ("Schemas", Mode.freshSlice (.viaPtrRec "Schema"), Ty.slice (.ptr (.named "Schema"))) ∈ copyRoots := by decide
 
 /-! ### the meta-theorem and its converses, restated for the audit -/
 
